@@ -188,6 +188,9 @@ func runChecks(l *Loaded, specs []*RunSpec, known []KnownFinding, opt options) *
 		res := explore(l.prog, spec, opt.workers, known, opt.seed, opt.nsamples, os.Getenv("GOSYM_SOLVER"))
 		sum.Runs = append(sum.Runs, res)
 		fmt.Printf("  %-70s paths=%d branches=%d queries=%d solver=%.1fs wall=%.1fs fails=%d\n", spec.String(), res.Paths, res.Branches, res.Queries, res.SolverS, res.WallS, len(res.Fails))
+		if os.Getenv("GOSYM_VERBOSE") != "" {
+			fmt.Printf("    assertion queries=%d new symbolic branches=%d (2 queries each)\n", res.AssertQ, res.NewBranches)
+		}
 		if res.Err != "" {
 			sum.Problems = append(sum.Problems, spec.String()+": "+res.Err)
 			continue
